@@ -4,11 +4,23 @@ check("C19", "B: shared-storage world simulator", "exploration",
   "Seeded search over histories (<=60 operations, <=3 trees, <=4 live iterators, four key universes) in which the tape decides which handle acts next; after every step every tree is compared with a sorted-set model (membership, return values, lower bound, full iteration) and its structure (BST order, balance factor = height difference in {-1,0,1}, parent links, no reachable Deleted node) is checked; after every Next() the exact-successor oracle on the current set is applied. Evidence, not proof: it samples histories.",
   "Trusted: the sorted-set model (40 lines), Go runtime. Assumes keys <= MaxInt-1. Single caller thread (the tree is not thread-safe by contract).",
   "DESIGN.md §3.B, §4 C19")
+check("C10", "B: shared-storage world simulator", "exploration",
+  DST + "seeded interleaving of root, Slice/T/ConstSlice view handles (nested) on shared storage; index-map reference model read back after every step + differential against an independent deep copy; shrunk replay files",
+  "Seeded search over histories of <=40 steps on one root matrix (dense or sparse, 9 element types, 0..5 x 0..5) and <=5 live views nested to depth 3. The tape picks the acting handle and one of ~50 operations (writes, bulk mutators, arithmetic as receiver and as operand, iterators, Row/Col/Diag, AsVector, printing, JSON and Export/Import round trips, copy accessors that are then written to, Tip). After every step every handle is read back against an index map that says which storage element it denotes (write-through, nothing outside the view touched), and every operation on a view must agree with the same operation on a deep copy built through At().Set(). Evidence, not proof.",
+  "Trusted: index-map model and deep copy built via At/ConstAt/Set (assumes element access on un-viewed matrices is right). Operands never alias the receiver (C08). One open finding (C10-F2, sparse T() is not a reference view) is kept out of the search by treating sparse T() handles as snapshots.",
+  "DESIGN.md §3.B, §4 C10")
+check("C11", "B: shared-storage world simulator", "exploration",
+  DST + "seeded histories on one sparse vector / sparse matrix with live iterators and slice handles as interleaved actors; dense model of the same history checked after every step; shrunk replay files",
+  "Seeded search over histories of <=50 public operations (element access that creates entries, explicit zeros, Set, Reset, SetIdentity, Swap, Permute, Sort, ReverseOrder, Slice, Append, element-wise / scalar / matrix-vector arithmetic with dense and sparse operands, Map, Reduce, Equals, iteration, Tip) on one sparse container of a drawn element type, interleaved by the tape with <=3 partially consumed iterators (which may be written through) and Slice views. A plain []float64 model computes the semantics itself; after every step every in-range read and Dim is compared, iteration sweeps are scheduled operations, live iterators must stand on the next non-zero position of the current state. Evidence, not proof.",
+  "Trusted: the dense model (plain loops), exact small-integer arithmetic incl. integer wrap-around. No derivatives attached. Receiver/operand aliasing excluded (C08). After Sort/Permute/ReverseOrder/Append/Tip nothing is demanded of older iterators.",
+  "DESIGN.md §3.B, §4 C11")
+check("C12", "B: shared-storage world simulator (+ E step clock)", "exploration",
+  DST + "seeded interleaving of mutations on an object and its copy (snapshot independence), operand snapshots around library calls, algorithm sessions with re-used in-situ objects under the step clock; shrunk replay files",
+  "Six scenarios: (1) a source container (any storage, element type, nested view, derivatives) copied by a drawn Clone/As-conversion, equal at creation, then <=16 interleaved mutations of either side with the passive side compared to its snapshot; (2) operands of arithmetic/iteration/print calls unchanged; (3) 21 algorithm entry points called 1..3 times per session with fresh or re-used nil-buffer InSitu objects, all caller objects of the session compared after each call; (4) clones of partially consumed iterators (7 kinds) advanced in drawn interleavings; (5) scalar clones incl. derivative/Hessian state; (6) distribution constructors, GetParameters/SetParameters and CloneScalarPdf of 12 families. No model of operation semantics is needed: the oracle is that acting on one handle never changes what the other shows. Evidence, not proof.",
+  "Trusted: observation through ConstAt/GetDerivative. Panics of operations whose correctness belongs to other properties are counted, not reported. gaussJordan.Run is in-place by signature and excluded. Vector/matrix distributions and estimators' data arguments are covered only through engine A's input snapshots (C17).",
+  "DESIGN.md §3.B, §4 C12")
 for pid, why in {
   "C07": "claimed in DESIGN.md (engine C); check not yet built in this commit",
-  "C10": "claimed in DESIGN.md (engine B); check not yet built in this commit",
-  "C11": "claimed in DESIGN.md (engine B); check not yet built in this commit",
-  "C12": "claimed in DESIGN.md (engine B); check not yet built in this commit",
   "C16": "claimed in DESIGN.md (engine A); check not yet built in this commit",
   "C17": "claimed in DESIGN.md (engine A); check not yet built in this commit",
   "C18": "claimed in DESIGN.md (engine D); check not yet built in this commit",
